@@ -87,7 +87,9 @@ func genStateSnapScript(rng *Rng, nops int) []string {
 	nw := 0
 	open := map[string]bool{}
 	sizes := []int{0, 1, 37, 4096, 32768, 70000}
-	idx := uint64(0)
+	// the label of the first snapshot: small, or just below a power of ten (the next snapshots cross it: the
+	// storage must order its snapshots by age whatever their labels look like)
+	idx := []uint64{0, 0, 6, 95, 997, 99996}[rng.Intn(6)]
 	for len(script) < nops+2 {
 		switch r := rng.Intn(100); {
 		case r < 8:
@@ -156,6 +158,9 @@ func TestE2StateSnapCrash(t *testing.T) {
 		{"state.open", "snap.open", "state.set 3 " + hx([]byte("1")), "state.read", "state.set 4 " + hx([]byte("1")), "state.read"},
 		{"state.open", "snap.open", "snap.new w1 4 2 " + dc, "snap.write w1 0102", "snap.close w1", "snap.read", "snap.new w2 9 3 " + dc, "snap.write w2 03", "snap.discard w2", "snap.read"},
 		{"state.open", "snap.open", "snap.new w1 4 2 " + dc, "snap.write w1 0102", "snap.discard w1", "snap.read"},
+		// labels that cross a power of ten, and a newer snapshot with the same label as an older one
+		{"state.open", "snap.open", "snap.new w1 9 2 " + dc, "snap.write w1 01", "snap.close w1", "snap.read", "snap.new w2 10 2 " + dc, "snap.write w2 0202", "snap.close w2", "snap.read",
+			"snap.new w3 100 3 " + dc, "snap.write w3 030303", "snap.close w3", "snap.read", "snap.new w4 100 3 " + dc, "snap.write w4 04040404", "snap.close w4", "snap.read"},
 	}
 	for sidx := 0; sidx < nscripts+len(directed); sidx++ {
 		var script []string
